@@ -94,10 +94,11 @@ def _triples(task):
     c = _Ctx(dom)
     ops = dom.operands
     nontriv = 0
+    stride = 1 if K <= 2 else 5      # K >= 3: every 5th third operand, rotating with (i + j) so that all are used
     for i in range(lo, hi):
         la, va, a = ops[i]
-        for lb, vb, b in ops:
-            for lc, vc, cc in ops:
+        for j, (lb, vb, b) in enumerate(ops):
+            for lc, vc, cc in ops[(i + j) % stride::stride]:
                 T = f"{a.cls.name}x{b.cls.name}x{cc.cls.name}"
                 e = f"a={la}, b={lb}, c={lc}"
                 c.law("associativity-and", T, lambda: c.op("&", c.op("&", a, b), cc), lambda: c.op("&", a, c.op("&", b, cc)),
@@ -200,7 +201,7 @@ def _run(chk):
     chk.explanation = (
         "ABSINT evaluation of both sides of every Boolean-algebra law through the modelled operator protocol, compared with "
         f"the interpreted __eq__ (both directions): pair laws on all ordered pairs over K={K2} tokens, associativity and "
-        f"distributivity on all ordered triples over K={K3} tokens. Larger operands: derived from C01 (exact denotation) + C05 "
+        f"distributivity on all ordered triples over K={K3} tokens (for K >= 3 a rotating 1-in-5 stride over the third operand). Larger operands: derived from C01 (exact denotation) + C05 "
         "(canonical, == exact) + closure, which this check lists as the obligations it rests on.")
     chk.rule("R14.1", "pair laws: commutativity, idempotence, absorption, De Morgan, complement, involution")
     chk.rule("R14.2", "triple laws: associativity, distributivity")
